@@ -28,6 +28,10 @@ def main(tier, replay):
         for cd in ((0, 1, 2) if n in ('p1', 'p4') else (i % 3,)):
             J('intro-%s-L%d-c%d' % (n, L, cd), n, [L, -1, 1, cd, 0, 0])
         J('intro-%s-L%d-ps1' % (n, L), n, [L, 2, 1, (i + 1) % 3, 1, 0])
+    # records of changing structure, one per page, statistics kept: pages of a chunk differ in size and in their headers
+    for i, n in enumerate(('p1', 'p2', 'flat_bool')):
+        J('intro-%s-L%d-varying-pages' % (n, L), n, [L, -2, 2, i % 3, 1, 0])
+        jobs[-1]['opt'].pop('stub', None)
     # page headers and footer of 1500 bytes (long statistics make real headers exceed 1 KiB)
     for n in ('p1', 'p2'):
         # 600-byte strings: natively the statistics make real page headers longer than 1 KiB as well
